@@ -573,6 +573,19 @@ impl<'a> RandGen<'a> {
         }
     }
     fn type_ref(&mut self, depth: usize) -> Td {
+        match self.tid_ref(depth) {
+            Some(id) => Td::Defined(id),
+            None => self.leaf(),
+        }
+    }
+    fn tid_or_random(&mut self, depth: usize) -> Tid {
+        match self.tid_ref(depth) {
+            Some(id) => id,
+            None => Tid { source: (*self.rng.pick(&SRC_POOL)).to_string(), ns: None, gens: vec![] },
+        }
+    }
+    /// a type reference; `None` when nothing can be referenced and no breakage was drawn
+    fn tid_ref(&mut self, depth: usize) -> Option<Tid> {
         let broken = self.rng.below(1000) < self.chaos;
         let cur = self.w.defs[self.cur].clone();
         // pick a target definition and a type in it
@@ -583,6 +596,9 @@ impl<'a> RandGen<'a> {
         } else {
             (cur.clone(), if self.rng.chance(1, 6) { Some(cur.ns.trim().to_string()) } else { None })
         };
+        if tdef.types.is_empty() && !broken {
+            return None;
+        }
         let (mut source, mut arity) = if tdef.types.is_empty() || (broken && self.rng.chance(1, 3)) {
             ((*self.rng.pick(&SRC_POOL)).to_string(), self.rng.below(3) as usize)
         } else {
@@ -599,7 +615,7 @@ impl<'a> RandGen<'a> {
             }
         }
         let gens = (0..arity).map(|_| self.td(depth.saturating_sub(1))).collect();
-        Td::Defined(Tid { source, ns, gens })
+        Some(Tid { source, ns, gens })
     }
     fn td(&mut self, depth: usize) -> Td {
         if depth == 0 {
@@ -623,11 +639,17 @@ impl<'a> RandGen<'a> {
             _ => self.leaf(),
         }
     }
-    fn account_ref(&mut self) -> Aid {
+    fn account_refs(&mut self) -> Vec<Aid> {
+        (0..self.rng.below(3)).filter_map(|_| self.account_ref()).collect()
+    }
+    fn account_ref(&mut self) -> Option<Aid> {
         let broken = self.rng.below(1000) < self.chaos;
         let use_other = self.w.defs.len() > 1 && self.rng.chance(1, 3);
         let i = if use_other { self.rng.below(self.w.defs.len() as u64) as usize } else { self.cur };
         let d = self.w.defs[i].clone();
+        if d.accounts.is_empty() && !broken {
+            return None;
+        }
         let mut ns = if use_other || self.rng.chance(1, 6) { Some(d.ns.trim().to_string()) } else { None };
         let mut source = if d.accounts.is_empty() { (*self.rng.pick(&SRC_POOL)).to_string() } else { self.rng.pick(&d.accounts).clone() };
         if broken {
@@ -637,17 +659,20 @@ impl<'a> RandGen<'a> {
                 ns = Some((*self.rng.pick(&NS_POOL)).to_string());
             }
         }
-        Aid { source, ns }
+        Some(Aid { source, ns })
     }
     fn sd(&mut self, depth: usize) -> Sd {
         let broken = self.rng.below(1000) < self.chaos;
         if depth == 0 {
-            return Sd::Single((0..self.rng.below(3)).map(|_| self.account_ref()).collect());
+            return Sd::Single(self.account_refs());
         }
         let d = depth - 1;
         match self.rng.below(9) {
             0 | 1 => {
                 let sets = self.w.defs[self.cur].sets.clone();
+                if sets.is_empty() && !broken {
+                    return Sd::Struct(vec![]);
+                }
                 let (source, mut t, mut a) =
                     if sets.is_empty() || (broken && self.rng.chance(1, 3)) { ((*self.rng.pick(&SRC_POOL)).to_string(), 0, 0) } else { self.rng.pick(&sets).clone() };
                 if broken {
@@ -659,7 +684,7 @@ impl<'a> RandGen<'a> {
                 }
                 Sd::Defined { source, ty_gens: (0..t).map(|_| self.td(d)).collect(), acc_gens: (0..a).map(|_| self.sd(d)).collect() }
             }
-            2 | 3 => Sd::Single((0..self.rng.below(3)).map(|_| self.account_ref()).collect()),
+            2 | 3 => Sd::Single(self.account_refs()),
             4 | 5 => Sd::Struct((0..self.rng.below(4)).map(|_| self.sd(d)).collect()),
             6 => {
                 let mn = self.rng.below(4) as usize;
@@ -704,7 +729,7 @@ pub fn random_lines(rng: &mut Rng, size: u64, chaos: u64) -> Vec<Line> {
     let mut w = World { defs: vec![] };
     for ns in &names {
         let mut d = WDef { ns: ns.clone(), ..Default::default() };
-        let k = rng.below(size + 1) as usize;
+        let k = (rng.below(size + 1) as usize).max(if chaos == 0 { 1 } else { 0 });
         for s in distinct_names(rng, &SRC_POOL, k) {
             let ext = rng.chance(1, 5);
             d.types.push((s, rng.below(3) as usize, ext));
@@ -733,7 +758,7 @@ pub fn random_lines(rng: &mut Rng, size: u64, chaos: u64) -> Vec<Line> {
             lines.push(Line::Set { source: s.clone(), ty_arity: *t, acc_arity: *a, sd: g.sd(depth) });
         }
         for s in &d.accounts {
-            let Td::Defined(id) = g.type_ref(2) else { unreachable!() };
+            let id = g.tid_or_random(2);
             let seeds = if g.rng.chance(1, 2) {
                 None
             } else {
@@ -742,7 +767,7 @@ pub fn random_lines(rng: &mut Rng, size: u64, chaos: u64) -> Vec<Line> {
             lines.push(Line::Acct { source: s.clone(), tid: id, seeds });
         }
         for k in 0..g.rng.below(size) {
-            let Td::Defined(id) = g.type_ref(2) else { unreachable!() };
+            let id = g.tid_or_random(2);
             let depth = g.rng.below(4) as usize;
             lines.push(Line::Ix { source: format!("Ix{k}"), tid: id, sd: g.sd(depth) });
         }
@@ -925,11 +950,26 @@ fn mutate_line(line: &mut Line, rng: &mut Rng, budget: &mut i64) {
 
 /// Single-edit mutants of valid graphs: rename a reference, change its namespace, bump an arity,
 /// break a bound, empty an Or, delete an item line, rename / blank / duplicate a namespace.
-pub fn mutant_cases(out: &mut Vec<Case>, rng: &mut Rng, bases: usize, per_base: usize, extra_bases: &[(String, Vec<Line>)]) {
+pub fn mutant_cases(
+    out: &mut Vec<Case>,
+    rng: &mut Rng,
+    bases: usize,
+    per_base: usize,
+    extra_bases: &[(String, Vec<Line>)],
+    is_sound: &dyn Fn(&[Line]) -> bool,
+) {
     let mut all: Vec<(String, Vec<Line>)> = extra_bases.to_vec();
     for b in 0..bases {
-        let size = 3 + rng.below(3);
-        all.push((format!("rand{b}"), random_lines(rng, size, 0)));
+        // bases are graphs the *oracle* calls sound in both modes (a few retries; otherwise taken as is)
+        let mut base = vec![];
+        for _ in 0..12 {
+            let size = 3 + rng.below(3);
+            base = random_lines(rng, size, 0);
+            if is_sound(&base) {
+                break;
+            }
+        }
+        all.push((format!("rand{b}"), base));
     }
     for (bn, base) in all {
         let v = with_verifies(rng, base.clone());
